@@ -15,6 +15,10 @@ enum Op {
     NewB,
     FromFirst,
     FromSecond,
+    /// only when both payload types are the same type: wrap the *first* allocation as `Second`
+    /// (and the second as `First`), so that one allocation is held under both variants
+    CrossSecond,
+    CrossFirst,
     CloneU(usize),
     DropU(usize),
     PromoteU(usize), // borrow -> clone_arc -> plain Arc
@@ -28,7 +32,8 @@ struct Model {
     b_owners: usize,
     arcs_a: usize,
     arcs_b: usize,
-    us: Vec<bool>, // true = First
+    us: Vec<(bool, bool)>, // (variant is First, refers to allocation A)
+    same_type: bool,
 }
 impl Model {
     fn handles(&self) -> usize {
@@ -48,6 +53,12 @@ impl Model {
         }
         if self.arcs_b > 0 && room {
             v.push(Op::FromSecond);
+        }
+        if self.same_type && self.arcs_a > 0 && room {
+            v.push(Op::CrossSecond);
+        }
+        if self.same_type && self.arcs_b > 0 && room {
+            v.push(Op::CrossFirst);
         }
         for i in 0..self.us.len() {
             // unions of the same variant are bit-identical: only the first of each variant
@@ -80,15 +91,23 @@ impl Model {
             }
             Op::FromFirst => {
                 self.a_owners += 1;
-                self.us.push(true)
+                self.us.push((true, true))
             }
             Op::FromSecond => {
                 self.b_owners += 1;
-                self.us.push(false)
+                self.us.push((false, false))
+            }
+            Op::CrossSecond => {
+                self.a_owners += 1;
+                self.us.push((false, true))
+            }
+            Op::CrossFirst => {
+                self.b_owners += 1;
+                self.us.push((true, false))
             }
             Op::CloneU(i) => {
                 let f = self.us[i];
-                if f {
+                if f.1 {
                     self.a_owners += 1
                 } else {
                     self.b_owners += 1
@@ -96,14 +115,15 @@ impl Model {
                 self.us.push(f)
             }
             Op::DropU(i) => {
-                if self.us.remove(i) {
+                if self.us.remove(i).1 {
                     self.a_owners -= 1
                 } else {
                     self.b_owners -= 1
                 }
             }
             Op::PromoteU(i) => {
-                if self.us[i] {
+                // the promoted plain Arc has the *variant's* type; with equal types it is stored by allocation
+                if self.us[i].1 {
                     self.a_owners += 1;
                     self.arcs_a += 1
                 } else {
@@ -141,7 +161,7 @@ fn run_path<A: DShape, B: DShape>(g: &mut Grid, path: &[Op]) {
     g.begin(&format!("ArcUnion<{},{}> {:?}", A::NAME, B::NAME, path));
     let same_type = std::any::TypeId::of::<A>() == std::any::TypeId::of::<B>();
     let mut r: Real<A, B> = Real { arcs_a: Vec::with_capacity(8), arcs_b: Vec::with_capacity(8), us: Vec::with_capacity(8), a_block: 0, b_block: 0 };
-    let mut m = Model::default();
+    let mut m = Model { same_type, ..Default::default() };
     let hist = |k: usize| format!("ArcUnion<{},{}> {:?}", A::NAME, B::NAME, &path[..=k]);
     for (k, &op) in path.iter().enumerate() {
         let (da0, db0) = (A::drops(), B::drops());
@@ -152,15 +172,48 @@ fn run_path<A: DShape, B: DShape>(g: &mut Grid, path: &[Op]) {
             Op::NewB => r.arcs_b.push(Arc::new(B::make(2))),
             Op::FromFirst => r.us.push(ArcUnion::from_first(r.arcs_a[0].clone())),
             Op::FromSecond => r.us.push(ArcUnion::from_second(r.arcs_b[0].clone())),
+            Op::CrossSecond => {
+                let a: &Arc<A> = &r.arcs_a[0];
+                let b: &Arc<B> = (a as &dyn std::any::Any).downcast_ref::<Arc<B>>().expect("same type");
+                r.us.push(ArcUnion::from_second(b.clone()))
+            }
+            Op::CrossFirst => {
+                let b: &Arc<B> = &r.arcs_b[0];
+                let a: &Arc<A> = (b as &dyn std::any::Any).downcast_ref::<Arc<A>>().expect("same type");
+                r.us.push(ArcUnion::from_first(a.clone()))
+            }
             Op::CloneU(i) => {
                 let c = r.us[i].clone();
                 r.us.push(c)
             }
             Op::DropU(i) => drop(r.us.remove(i)),
-            Op::PromoteU(i) => match r.us[i].borrow() {
-                ArcUnionBorrow::First(b) => r.arcs_a.push(b.clone_arc()),
-                ArcUnionBorrow::Second(b) => r.arcs_b.push(b.clone_arc()),
-            },
+            Op::PromoteU(i) => {
+                let on_a = before.us[i].1;
+                match r.us[i].borrow() {
+                    ArcUnionBorrow::First(b) => {
+                        let arc = b.clone_arc();
+                        if on_a {
+                            r.arcs_a.push(arc)
+                        } else {
+                            // equal types: the allocation is the "B" one although the variant is First
+                            // A and B are the same type here (checked through TypeId by the model)
+                            let x: Arc<B> = unsafe { std::mem::transmute_copy(&arc) };
+                            std::mem::forget(arc);
+                            r.arcs_b.push(x)
+                        }
+                    }
+                    ArcUnionBorrow::Second(b) => {
+                        let arc = b.clone_arc();
+                        if !on_a {
+                            r.arcs_b.push(arc)
+                        } else {
+                            let x: Arc<A> = unsafe { std::mem::transmute_copy(&arc) };
+                            std::mem::forget(arc);
+                            r.arcs_a.push(x)
+                        }
+                    }
+                }
+            }
             Op::DropA => drop(r.arcs_a.pop()),
             Op::DropB => drop(r.arcs_b.pop()),
         });
@@ -201,8 +254,8 @@ fn run_path<A: DShape, B: DShape>(g: &mut Grid, path: &[Op]) {
         }
         // --- every union reports its variant, the right allocation and the right count
         for (i, u) in r.us.iter().enumerate() {
-            let first = m.us[i];
-            let (blk, off, own) = if first { (r.a_block, inner::<A>().1, m.a_owners) } else { (r.b_block, inner::<B>().1, m.b_owners) };
+            let (first, on_a) = m.us[i];
+            let (blk, off, own) = if on_a { (r.a_block, inner::<A>().1, m.a_owners) } else { (r.b_block, inner::<B>().1, m.b_owners) };
             let accessors_ok = u.is_first() == first && u.is_second() == !first && u.as_first().is_some() == first && u.as_second().is_some() == !first && matches!(u.borrow(), ArcUnionBorrow::First(_)) == first;
             if !accessors_ok {
                 g.fail("variant-misreported", &hist(k), format!("union #{} built {} reports is_first={} is_second={} as_first={} as_second={}", i, if first { "from_first" } else { "from_second" }, u.is_first(), u.is_second(), u.as_first().is_some(), u.as_second().is_some()));
@@ -210,13 +263,13 @@ fn run_path<A: DShape, B: DShape>(g: &mut Grid, path: &[Op]) {
             }
             let addr = match u.borrow() {
                 ArcUnionBorrow::First(b) => {
-                    if !b.get().ok(1) {
+                    if !b.get().ok(if on_a { 1 } else { 2 }) {
                         g.fail("payload-damaged", &hist(k), format!("union #{} first payload not intact", i));
                     }
                     b.get() as *const A as usize
                 }
                 ArcUnionBorrow::Second(b) => {
-                    if !b.get().ok(2) {
+                    if !b.get().ok(if on_a { 1 } else { 2 }) {
                         g.fail("payload-damaged", &hist(k), format!("union #{} second payload not intact", i));
                     }
                     b.get() as *const B as usize
@@ -232,12 +285,16 @@ fn run_path<A: DShape, B: DShape>(g: &mut Grid, path: &[Op]) {
                 return;
             }
             for (j, v) in r.us.iter().enumerate().skip(i + 1) {
-                let same = m.us[j] == first;
+                let same_variant = m.us[j].0 == first;
+                let same = m.us[j] == (first, on_a);
                 if ArcUnion::ptr_eq(u, v) != same {
-                    g.fail("ptr-eq", &hist(k), format!("ptr_eq(#{}, #{}) = {} but same allocation = {}", i, j, !same, same));
+                    g.fail(if same_variant { "ptr-eq" } else { "ptr-eq-across-variants" }, &hist(k), format!("ptr_eq(#{}, #{}) = {} but (same variant, same allocation) = ({}, {})", i, j, !same, same_variant, m.us[j].1 == on_a));
                 }
-                if (u == v) != same {
-                    g.fail("eq-across-variants", &hist(k), format!("union #{} == union #{} is {} (variants {} / {})", i, j, u == v, first, m.us[j]));
+                if !same_variant && u == v {
+                    g.fail("eq-across-variants", &hist(k), format!("union #{} == union #{} although they hold different variants (allocations {} / {})", i, j, if on_a { "A" } else { "B" }, if m.us[j].1 { "A" } else { "B" }));
+                }
+                if same && u != v {
+                    g.fail("eq-same-union", &hist(k), format!("union #{} != union #{} although both hold the same variant of the same allocation", i, j));
                 }
             }
         }
@@ -283,7 +340,7 @@ pub fn pair<A: DShape, B: DShape>(g: &mut Grid, depth: usize, maxh: usize) {
     fn rec<A: DShape, B: DShape>(g: &mut Grid, m: &Model, path: &mut Vec<Op>, depth: usize, maxh: usize) {
         let ops = if path.len() < depth { m.enabled(maxh) } else { vec![] };
         if ops.is_empty() {
-            let has_union = path.iter().any(|o| matches!(o, Op::FromFirst | Op::FromSecond));
+            let has_union = path.iter().any(|o| matches!(o, Op::FromFirst | Op::FromSecond | Op::CrossFirst | Op::CrossSecond));
             g.case(format!("{}|{}|{}", A::NAME, B::NAME, if has_union { format!("{:?}", path) } else { "no-union".into() }), || format!("ArcUnion<{},{}> {:?}", A::NAME, B::NAME, path));
             if has_union {
                 run_path::<A, B>(g, path);
@@ -298,7 +355,8 @@ pub fn pair<A: DShape, B: DShape>(g: &mut Grid, depth: usize, maxh: usize) {
             path.pop();
         }
     }
-    rec::<A, B>(g, &Model::default(), &mut vec![], depth, maxh);
+    let same_type = std::any::TypeId::of::<A>() == std::any::TypeId::of::<B>();
+    rec::<A, B>(g, &Model { same_type, ..Default::default() }, &mut vec![], depth, maxh);
 }
 
 pub fn run(tier: &str) -> Vec<Grid> {
